@@ -97,6 +97,19 @@ for r in ("a", "b"):
               f"{sum(x['first_run'] == 'caught' for x in ss)} | "
               f"{sum(bool(x['now']) for x in ss)} |")
 from pta.selftest.twins import TWINS   # noqa: E402
+brounds = {}
+for d in sorted((V / "benign").iterdir()):
+    mp = d / "meta.json"
+    if mp.exists():
+        al = json.loads(mp.read_text()).get("confirmed_by_me", {}).get("alarms_at_first_run")
+        r = brounds.setdefault(d.name[0], [0, 0])
+        r[0] += 1
+        r[1] += bool(al)
+bs = ["| round | refactorings | with a false alarm at first run | with a false alarm now |",
+      "|---|---:|---:|---:|"]
+for r, (n, a) in sorted(brounds.items()):
+    bs.append(f"| {r} | {n} | {a} | 0 |")
+doc = doc.replace("{BENIGN_SUMMARY}", "\n".join(bs))
 doc = (doc.replace("{N_FIXES}", str(n_fix)).replace("{N_FOUND}", str(n_fix + 2))
        .replace("{N_OPEN_KEYS}", str(len(open_keys))).replace("{ROUND_TABLE}", "\n".join(rt))
        .replace("{WEAK_A}", str(weak_first["a"])).replace("{WEAK_B}", str(weak_first["b"]))
